@@ -3,6 +3,7 @@ package main
 import (
 	"crypto/sha256"
 	"io"
+	"runtime/debug"
 
 	"github.com/sirupsen/logrus"
 )
@@ -18,3 +19,5 @@ func sha(s string) []byte {
 	h := sha256.Sum256([]byte(s))
 	return h[:]
 }
+
+func stackHere() string { return string(debug.Stack()) }
